@@ -531,6 +531,64 @@ def sort_stream(ctx, real, nrandom):
     return problems
 
 
+# ---------------------------------------------------------------- an OrList with as many children as LISTEND
+HANG_KEY = "hang:listend-is-a-child-index"
+
+
+def big_oneof_probe(ctx, b):
+    """a ONEOF of 1000 alternatives: `choice` reaches the value LISTEND had (999).  Hypothesis `smallOr` of
+    C08_retry_terminates put to the real code; run once LISTEND is no child index any more, or the finding is listed."""
+    from vlib import findings as F
+    rc, out, _ = run_model(ctx, ["consts"])
+    listend = 999
+    if out and "listend=" in out[0]:
+        listend = int(out[0].split("listend=")[1].split()[0])
+    if listend < 100000 and not F.lookup("C08", HANG_KEY):
+        ctx.hist("probes", "oneof-1000 skipped (LISTEND is a child index and the finding is not listed)")
+        return []
+    n = 1000
+    names = [f"x{i:04d}" for i in range(n)]
+    d = os.path.join(ctx.work, "big")
+    os.makedirs(d, exist_ok=True)
+    text = ("SCHEMA big;\nENTITY a SUPERTYPE OF (ONEOF(" + ", ".join(names) + "));\nEND_ENTITY;\n" +
+            "".join(f"ENTITY {x} SUBTYPE OF (a);\nEND_ENTITY;\n" for x in names) + "END_SCHEMA;\n")
+    open(os.path.join(d, "s.exp"), "w").write(text)
+    r = subprocess.run([b.tool("exp2cxx"), "s.exp"], cwd=d, env=b.env(), capture_output=True, text=True)
+    if r.returncode != 0:
+        return [("machinery", 0, {"what": "oneof-1000 probe: exp2cxx failed " + (r.stdout + r.stderr)[-300:]})]
+    open(os.path.join(d, "gc.cc"), "w").write('#include "clstepcore/complexSupport.h"\nComplexCollect *gencomplex();\n'
+                                             'typedef ComplexCollect*(*gcfn)();\ngcfn gc_table[]={gencomplex};int gc_count=1;\n')
+    exe = os.path.join(d, "h")
+    B.compile_driver(b, [os.path.join(VERIF, "harness", "h_complex.cc"), os.path.join(d, "gc.cc"), os.path.join(d, "compstructs.cc")], exe)
+    reqs = [(["a", "x0005"], True), (["a", "x0999"], True), (["a", "x0001", "x0002"], False), (["a", "x0997", "x0998"], False),
+            (["a", "x0998", "x0999"], False), (["a", "x0999", "x0000"], False)]
+    rank = {nm: i for i, nm in enumerate(["a"] + names)}
+    tree = "tree C[ (A 0 (O " + " ".join(str(rank[x]) for x in names) + ")) ]"
+    rc, mout, _ = run_model(ctx, [tree, "mult"] + ["q " + " ".join(str(rank[x]) for x in q) for q, _ in reqs])
+    problems = []
+    for qi, (q, legal) in enumerate(reqs):
+        try:
+            rr = subprocess.run([exe], input="use 0\nq " + " ".join(q) + "\n", capture_output=True, text=True, env=b.env(), timeout=30)
+            lines = [x for x in rr.stdout.split("\n") if x]
+            real = lines[1] if len(lines) > 1 else f"CRASH rc={rr.returncode} {rr.stderr[-300:]}"
+        except subprocess.TimeoutExpired:
+            real = "HANG (no answer within 30 s)"
+        model = mout[2 + qi] if len(mout) > 2 + qi else "?"
+        ctx.count(1, key=("oneof-1000", tuple(q)))
+        ctx.hist("probes", "oneof-1000 " + ("hang" if real.startswith("HANG") else "answered"))
+        rm = "NOANSWER" if real.startswith("HANG") else real
+        mm = "NOANSWER" if model == "R fuel" else model
+        d0 = {"X": q, "order": q, "reply": real, "model": model, "legal": legal, "tree": "(A a (O x0000 .. x0999))",
+              "schema_note": "a SUPERTYPE OF (ONEOF(x0000 .. x0999)); 1000 subtypes"}
+        verdict_ok = (real == ("R 1" if legal else "R 0"))
+        if rm != mm:
+            problems.append(("mismatch", 0, dict(d0, what=None if verdict_ok else ("hang" if rm == "NOANSWER" else "wrong verdict"),
+                                                  detail=f"oneof-1000 probe: real {real!r}, model {model!r}")))
+        elif not verdict_ok:
+            problems.append(("hang", -1, dict(d0, what="the matcher does not terminate" if rm == "NOANSWER" else "wrong verdict " + real)))
+    return problems
+
+
 # ---------------------------------------------------------------- reporting
 def report(ctx, problems, schemas, labels):
     nviol = 0
@@ -559,6 +617,13 @@ def report(ctx, problems, schemas, labels):
             else:
                 ctx.broken.append(("correspondence real matcher vs Lean matcher model (the property holds on this request)",
                                    desc + " replay: " + json.dumps(rep)[:3000]))
+    for kind, k, d in problems:
+        if kind == "hang":
+            ctx.hist("failing-classes", HANG_KEY, 1)
+            ctx.violation(HANG_KEY, f"{d['what']}: request {d['X']} on {d['schema_note']} — real {d['reply']!r}, model {d['model']!r}",
+                          {"note": d["schema_note"], "X": d["X"], "reply": d["reply"], "model": d["model"],
+                           "how": "generate the schema (tools/c08_gen is not needed: ONEOF of x0000..x0999 under a), run exp2cxx, "
+                                  "compile compstructs.cc with harness/h_complex.cc, `use 0` then `q " + " ".join(d["X"]) + "`"})
     by_class = {}
     for kind, k, d in problems:
         if kind != "property":
@@ -677,6 +742,7 @@ def run(ctx):
     t = time.time()
     problems += sort_stream(ctx, real, 600 if quick else 6000)
     ctx.cov["correspondence"]["sort-after-renaming"] = {"wall_s": round(time.time() - t, 1)}
+    problems += big_oneof_probe(ctx, b)
     # end to end on a sample
     t = time.time()
     ne2e = 2 if quick else 12
